@@ -133,7 +133,7 @@ impl Divan {
         // When run under `cargo-nextest`, it provides `--list --format terse`.
         // We don't currently accept this action under any other circumstances.
         if action.is_list_terse() {
-            self.run_tree_list(&tree, "");
+            self.run_tree_list(&tree, "", None);
             return;
         }
 
@@ -187,17 +187,42 @@ impl Divan {
     /// Emits the entries in `tree` for the purpose of `--list --format terse`.
     ///
     /// This only happens when running under `cargo-nextest` (`NEXTEST=1`).
-    fn run_tree_list(&self, tree: &[EntryTree], parent_path: &str) {
+    fn run_tree_list(
+        &self,
+        tree: &[EntryTree],
+        parent_path: &str,
+        parent_options: Option<&BenchOptions>,
+    ) {
         let mut full_path = String::with_capacity(parent_path.len());
 
         for child in tree {
-            let ignore = child
-                .bench_options()
-                .and_then(|options| options.ignore)
-                .unwrap_or_default();
+            // Resolve `ignore` the same way as `run_tree` and
+            // `run_bench_entry`: child over parent, runtime over both.
+            let child_options = child.bench_options();
 
-            if self.should_ignore(ignore) {
-                continue;
+            let options: BenchOptions;
+            let options: Option<&BenchOptions> =
+                match (parent_options, child_options) {
+                    (None, None) => None,
+                    (Some(options), None) | (None, Some(options)) => {
+                        Some(options)
+                    }
+                    (Some(parent_options), Some(child_options)) => {
+                        options = child_options.overwrite(parent_options);
+                        Some(&options)
+                    }
+                };
+
+            if let EntryTree::Leaf { .. } = child {
+                let ignore = self
+                    .bench_options
+                    .ignore
+                    .or(options.and_then(|options| options.ignore))
+                    .unwrap_or_default();
+
+                if self.should_ignore(ignore) {
+                    continue;
+                }
             }
 
             full_path.clear();
@@ -219,7 +244,7 @@ impl Divan {
                     }
                 }
                 EntryTree::Parent { children, .. } => {
-                    self.run_tree_list(children, &full_path)
+                    self.run_tree_list(children, &full_path, options)
                 }
             }
         }
